@@ -154,23 +154,20 @@ pub fn catch<T>(f: impl FnOnce() -> T + std::panic::UnwindSafe) -> Result<T, Str
     })
 }
 
-/// `record_line`, with a panic of the code under test reported as `{"id":..,"panic":".."}`.
-pub fn record_catch<E: Entry>(id: &str, mk: impl FnOnce() -> E + std::panic::UnwindSafe) -> String {
-    let idc = id.to_string();
-    match catch(move || {
-        let e = mk();
-        record_line(&idc, &e)
-    }) {
-        Ok(l) => l,
+/// Appends the line `f` produces (or `{"id":..,"panic":".."}` if the code under test panics) to `out`.
+/// Not generic on purpose: the generated programs call it once per instance.
+pub fn guarded(out: &mut String, id: &str, f: &mut dyn FnMut() -> String) {
+    match catch(std::panic::AssertUnwindSafe(f)) {
+        Ok(l) => out.push_str(&l),
         Err(p) => {
-            let mut s = String::from("{\"id\":");
-            jstr(&mut s, id);
-            s.push_str(",\"panic\":");
-            jstr(&mut s, &p);
-            s.push('}');
-            s
+            out.push_str("{\"id\":");
+            jstr(out, id);
+            out.push_str(",\"panic\":");
+            jstr(out, &p);
+            out.push('}');
         }
     }
+    out.push('\n');
 }
 
 pub fn ts(secs: u64) -> SystemTime {
